@@ -673,7 +673,13 @@ fn gen_hist(rng: &mut Rng, stats: &mut Stats, thorough: bool) -> String {
                     let d = dirs[1 + rng.below(n_dirs as u64 - 1) as usize].clone();
                     let c = intern(&mut table, Content::TreeOf(d));
                     let name: &[u8] = if rng.chance(1, 2) { b"0coll" } else { b"zcoll" };
-                    _ = files.insert(vec![name.to_vec()], (K::File, 100, c));
+                    // a collision file that exists already keeps changing its stamp (its content follows the directory's tree and
+                    // may keep its size: with the old stamp a parent-based backup would rightly take it for unchanged — C11's case)
+                    let m = match files.get(&vec![name.to_vec()]) {
+                        Some(old) => bump(rng, old.1, stats),
+                        None => 100,
+                    };
+                    _ = files.insert(vec![name.to_vec()], (K::File, m, c));
                 }
                 _ => {
                     stats.hit("c07.edit.new-file");
